@@ -200,7 +200,7 @@ inline bool apply(const Choice& ch, Content& c, Layout& l) {   // returns false 
     auto get = [&](const char* k, const char* dflt) { auto it = ch.find(k); return it == ch.end() ? std::string(dflt) : it->second; };
     c.nPoints = atoi(get("points", "2").c_str()); c.nChans = atoi(get("chans", "2").c_str()); c.spf = atoi(get("spf", "2").c_str()); c.nFrames = atoi(get("frames", "2").c_str());
     c.first = atoi(get("first", "1").c_str()); c.nEvents = atoi(get("events", "0").c_str());
-    std::string r = get("rates", "100x2"); float pr = (float)atof(r.substr(0, r.find('x')).c_str());   // ("0x1" as a whole would parse as the hexadecimal 1.0) c.pointRate = pr; c.analogRate = pr * (float)c.spf; if (pr == 0.0f) { c.analogRate = 100.f; c.spf = 1; if (ch.count("spf") && ch.at("spf") != "1") return false; }
+    std::string r = get("rates", "100x2"); float pr = (float)atof(r.substr(0, r.find('x')).c_str()); /* ("0x1" as a whole would parse as the hexadecimal 1.0) */ c.pointRate = pr; c.analogRate = pr * (float)c.spf; if (pr == 0.0f) { c.analogRate = 100.f; c.spf = 1; if (ch.count("spf") && ch.at("spf") != "1") return false; }
     c.valueSet = get("values", "plain") == "special" ? 1 : 0; c.extra = get("extra", "small"); c.descs = get("descs", "short"); c.locks = get("locks", "no") == "yes";
     std::string lb = get("labels", "equal"); c.labelsDelta = lb == "fewer" ? -1 : lb == "more" ? 1 : 0; if (lb == "fewer" && c.nPoints == 0) return false; c.blankLabel = lb == "blank"; if (c.blankLabel && c.nPoints == 0) return false;
     std::string al = get("alabels", "equal"); c.alabelsDelta = al == "fewer" ? -1 : al == "more" ? 1 : 0; if (al == "fewer" && c.nChans == 0) return false;
